@@ -210,17 +210,19 @@ class VIter(Value):
 
 
 class Frame:
-    __slots__ = ("fn", "locals", "bb", "dest", "ret_bb", "tag")
+    __slots__ = ("fn", "locals", "bb", "dest", "ret_bb", "tag", "generics")
 
     def __init__(self, fn, dest, ret_bb):
         self.fn, self.locals, self.bb, self.dest, self.ret_bb = fn, {}, 0, dest, ret_bb
         self.tag = None
+        self.generics = ()
 
     def clone(self):
         f = Frame(self.fn, self.dest, self.ret_bb)
         f.locals = dict(self.locals)
         f.bb = self.bb
         f.tag = self.tag
+        f.generics = self.generics
         return f
 
 
@@ -238,6 +240,12 @@ class State:
         self.faults_left = 0
         self.meta = {}        # free-form per-path data used by checks
         self.steps = 0
+        # multi-thread exploration: the running thread's frames/locks live in self.frames/self.locks,
+        # the other threads are parked here: tid -> dict(frames, locks, status, pending, retval, name)
+        self.mt = False
+        self.tid = 0
+        self.parked = {}
+        self.resumed = False
 
     def clone(self):
         s = State()
@@ -252,6 +260,10 @@ class State:
         s.meta = {k: (list(v) if isinstance(v, list) else dict(v) if isinstance(v, dict) else v)
                   for k, v in self.meta.items()}
         s.steps = self.steps
+        s.mt, s.tid, s.resumed = self.mt, self.tid, self.resumed
+        s.parked = {t: dict(frames=[f.clone() for f in d["frames"]], locks=list(d["locks"]), status=d["status"],
+                            pending=d.get("pending"), retval=d.get("retval"), name=d.get("name"))
+                    for t, d in self.parked.items()}
         return s
 
     def alloc(self, v):
@@ -278,7 +290,30 @@ class State:
     def event(self, kind, **kw):
         kw["kind"] = kind
         kw["locks"] = tuple(self.locks)
+        if self.mt:
+            kw["tid"] = self.tid
         self.trace.append(kw)
+
+    # ---- multi-thread support
+    def other_locks(self):
+        out = []
+        for t, d in self.parked.items():
+            out += [(l, m, t) for (l, m) in d["locks"]]
+        return out
+
+    def park_current(self, status, pending=None, retval=None):
+        self.parked[self.tid] = dict(frames=self.frames, locks=self.locks, status=status, pending=pending,
+                                     retval=retval, name=self.parked.get(self.tid, {}).get("name"))
+        self.frames, self.locks = [], []
+
+    def switch_to(self, tid):
+        d = self.parked.pop(tid)
+        self.tid = tid
+        self.frames, self.locks = d["frames"], d["locks"]
+        self.parked[tid] = dict(frames=[], locks=[], status="running", pending=None, retval=None, name=d.get("name"))
+        del self.parked[tid]
+        self.meta.setdefault("names", {})[tid] = d.get("name")
+        self.resumed = d.get("pending") is not None
 
 
 class Unsupported(Exception):
@@ -287,6 +322,8 @@ class Unsupported(Exception):
 
 def child(v, p):
     if isinstance(v, VStruct):
+        if not isinstance(p, int) or p >= len(v.fields):
+            raise Unsupported(f"field {p} of a {v.name} value modelled with {len(v.fields)} fields")
         return v.fields[p]
     if isinstance(v, VVec):
         return v.elems[p]
@@ -622,6 +659,11 @@ class Executor:
         m = re.match(r"'(.)'$", t)
         if m:
             return VInt(ord(m.group(1)), "char")
+        # a const generic parameter of the current (polymorphic) function: take it from the call site
+        if fr is not None and re.fullmatch(r"[A-Z][A-Z0-9_]*", t) and getattr(fr, "generics", ()):
+            nums = [g for g in fr.generics if re.fullmatch(r"\d+", g)]
+            if len(nums) == 1:
+                return VInt(int(nums[0]), "usize")
         # named constants / promoteds
         key = t
         if key in self.consts:
@@ -929,6 +971,8 @@ class Executor:
             st.status = "returned"
             if fr.tag:
                 return fr.tag(self, st, rv)
+            if st.mt:
+                return self.thread_done(st, rv)
             return [st]
         st.store(fr.dest, rv)
         caller = st.frames[-1]
@@ -952,6 +996,14 @@ class Executor:
         _, dest, callee, argops, ret_bb = t
         args = [self.operand(st, fr, a) for a in argops]
         dref = self.place_ref(st, fr, dest)
+        if st.mt:
+            vis = self.visible_op(st, callee, args)
+            if vis is not None:
+                if st.resumed:
+                    st.resumed = False
+                else:
+                    st.park_current("parked", pending=vis)
+                    return self.schedule(st)
         # 1. models take precedence when they claim the callee
         res = self.models.call(self, st, fr, callee, args, dref, ret_bb)
         if res is not None:
@@ -959,7 +1011,11 @@ class Executor:
         # 2. crate function
         fn = self.resolve(callee, args)
         if fn is not None:
-            return self.push_call(st, fn, args, dref, ret_bb)
+            outs = self.push_call(st, fn, args, dref, ret_bb)
+            m = re.search(r"::<([^<>]*)>$", callee.strip())
+            if m:
+                st.frames[-1].generics = tuple(x.strip() for x in m.group(1).split(","))
+            return outs
         raise Unsupported(f"unmodelled callee `{strip_generics(callee)}` (in {fr.fn.name.split('::')[-1]})")
 
     def finish_call(self, st, dref, ret_bb, value):
@@ -1083,7 +1139,103 @@ class Executor:
             self.models.on_drop(self, st, v)
         return [st]
 
+    # ---- interleaving exploration -------------------------------------------------------------
+    VISIBLE_LOCK = ("Mutex::lock", "RwLock::read", "RwLock::write")
+    VISIBLE_IO = ("fs::rename", "rename", "fs::remove_file", "remove_file", "File::open", "fs::read", "CasManager::read_blob_range")
+
+    def visible_op(self, st, callee, args):
+        """('lock', name, mode) / ('io',) when the call touches state other threads can see"""
+        key = self.models.canon(strip_generics(callee).strip())
+        if key in self.VISIBLE_LOCK:
+            ref = args[0]
+            v = st.load(ref)
+            while isinstance(v, VRef):
+                ref = v
+                v = st.load(ref)
+            if isinstance(v, VStruct) and v.name in ("Mutex", "RwLock"):
+                mode = "read" if key.endswith("::read") else ("write" if key.endswith("::write") else "lock")
+                return ("lock", v.fields[1].data, mode)
+            return None
+        if key in self.VISIBLE_IO:
+            return ("io", key)
+        return None
+
+    @staticmethod
+    def _conflict(held_mode, want_mode):
+        return not (held_mode == "read" and want_mode == "read")
+
+    def enabled(self, st, tid):
+        d = st.parked[tid]
+        if d["status"] in ("done",):
+            return False
+        p = d.get("pending")
+        if p and p[0] == "lock":
+            for t2, d2 in st.parked.items():
+                if t2 == tid:
+                    continue
+                for (l, m) in d2["locks"]:
+                    if l == p[1] and self._conflict(m, p[2]):
+                        return False
+        return True
+
+    def schedule(self, st):
+        """the running thread has just been parked: fork over every enabled thread"""
+        hook = getattr(self, "on_schedule", None)
+        if hook is not None:
+            v = hook(self, st)
+            if v is not None:
+                st.status, st.note = "violation", v
+                return [st]
+        live = [t for t, d in st.parked.items() if d["status"] != "done"]
+        if not live:
+            st.status = "returned"
+            return [st]
+        cands = [t for t in live if self.enabled(st, t)]
+        if not cands:
+            st.status, st.note = "deadlock", "no thread can proceed: " + str({t: st.parked[t].get("pending") for t in live})
+            return [st]
+        outs = []
+        for i, t in enumerate(cands):
+            s2 = st if i == len(cands) - 1 else st.clone()
+            s2.switch_to(t)
+            s2.meta.setdefault("schedule", [])
+            s2.meta["schedule"] = s2.meta["schedule"] + [t]
+            s2.status = "running"
+            outs.append(s2)
+        return outs
+
+    def thread_done(self, st, rv):
+        st.meta.setdefault("results", {})
+        st.meta["results"] = dict(st.meta["results"])
+        st.meta["results"][st.tid] = rv
+        st.event("thread-done", result=rv)
+        st.park_current("done", retval=rv)
+        st.status = "running"
+        return self.schedule(st)
+
+    def start_threads(self, st, programs):
+        """programs: [(name, fn, args)] — every thread starts parked before its first instruction"""
+        st.mt = True
+        for tid, (name, fn, args) in enumerate(programs):
+            if isinstance(fn, str):
+                fn = self.fns[fn]
+            fn.parse_body()
+            fr = Frame(fn, None, None)
+            for (n, ty), v in zip(fn.params, args):
+                fr.locals[n] = st.alloc(v)
+            st.parked[tid] = dict(frames=[fr], locks=[], status="parked", pending=None, retval=None, name=name)
+        st.frames, st.locks = [], []
+        st.tid = -1
+        outs = self.schedule(st)
+        for s in outs:
+            s.resumed = False   # a fresh thread is not parked at a visible call
+        return outs
+
     def acquire(self, st, lock, mode):
+        if st.mt:
+            for (l, m, t) in st.other_locks():
+                if l == lock and self._conflict(m, mode):
+                    raise Unsupported(f"scheduler let thread {st.tid} acquire {lock} held by thread {t}")
         for (l, m) in st.locks:
             if l == lock and not (m == "read" and mode == "read"):
                 st.event("self-deadlock", lock=lock, mode=mode)
